@@ -60,18 +60,22 @@ theorem tcp_gate_before_upstream (env : Env) (ss : List Step)
   exact Props.C12.gate_before_upstream_tcp env _ (by decide) h
 
 /-- `GrpcProxyInterceptor.Stream`: lookup, then the access check on the peer address (a top-level
-`if … { return status.Error(codes.PermissionDenied, …) }`), then the handler that runs the director and dials.
-There is no authentication step on this path (recorded finding, class `grpc-unauthorized`). -/
-theorem grpc_order_pinned : steps grpcOrder = some [.lookup, .access, .upstream] := by decide
+`if … { return status.Error(codes.PermissionDenied, …) }`), then the route's auth scheme on the call's
+`authorization` metadata (`Target.Authorized`; failure answers `Unauthenticated`), then the handler that runs the
+director and dials (repair of D31, both halves). -/
+theorem grpc_order_pinned : steps grpcOrder = some [.lookup, .access, .auth, .upstream] := by decide
 
 theorem grpc_gate_returns : grpcGateReturns = true ∧ grpcDeniedCode = "PermissionDenied" := by decide
 
+/-- Hence the gRPC path reaches a backend only for a call that found a route, whose peer the rules admit and
+whose credentials the route's scheme accepts. -/
 theorem grpc_gate_before_upstream (env : Env) (ss : List Step) (hs : steps grpcOrder = some ss)
-    (h : (runGate env ss false).2 = true) : env.found = true ∧ env.denied = false := by
-  have : ss = [.lookup, .access, .upstream] := by
+    (h : (runGate env ss false).2 = true) :
+    env.found = true ∧ env.denied = false ∧ env.authorized = true := by
+  have : ss = [.lookup, .access, .auth, .upstream] := by
     have := grpc_order_pinned; rw [hs] at this; exact Option.some.inj this
   subst this
-  exact Props.C12.gate_before_upstream_tcp env _ (by decide) h
+  exact Props.C12.gate_before_upstream env _ (by decide) h
 
 /-- `AccessDeniedTCP` decides by calling `AccessDeniedAddr`, the function the gRPC interceptor uses: one
 decision (the model's `accessDeniedTCP`) for TCP connections and gRPC peers. -/
